@@ -69,6 +69,7 @@ func runC02(c *Ctx) {
 // Statement entry points that change pages without producing log records (DDL) must
 // make the change durable themselves: every success return passes through flushPages.
 func c02UnloggedMutators(c *Ctx, rule string) {
+	c.Robust(rule)
 	c.Rule(rule, "a storage entry point called by a statement that changes pages (its call cone marks a page dirty) but returns no WALBatch makes its change durable itself: every success return passes through flushPages")
 	w := c.W
 	cg := w.CG()
